@@ -15,6 +15,7 @@ import CatiiProofs.ReindexedUnique
 import CatiiProofs.HistoryLemmas
 import CatiiProofs.MaskGenBridge
 import CatiiProofs.ShiftGenBridge
+import CatiiProofs.AppendGenBridge
 /-!
 # C06 — index operations track NumPy on the dense array over any history
 
@@ -562,6 +563,25 @@ theorem generated_shift_common_changes_no_cell (i : IIndex) (h : WF i) (h2 : i.n
 /-- non-vacuity: a two-axis index re-encoded to a value it lists -/
 example : (Gen.shiftToGen { entries := [([1, 0], [0, 2]), ([2, 1], [1])], common := 0, shape := [3, 2] } 1).entries
     = [([2, 1], [1]), ([0, 0], [1]), ([0, 1], [0, 2])] := by decide
+
+/-- `append` up to its final `shift_common()` as REGENERATED from the source on every run (`Gen.appendPreGen`,
+tools/translate_append.py: other's entries offset by the receiver's row count and merged key by key, the rows holding other's
+common value added column by column when the two common values differ), followed by the library-chosen re-encoding: the
+result is well-formed, has the rows of both, keeps every old cell and holds other's cells below them - `numpy.concatenate` -/
+theorem generated_append_is_concatenation {i other : IIndex} (ok : AppendOK i other) (hnd : i.ndim ≤ 2) (r : IIndex)
+    (hr : shiftCommon (Gen.appendPreGen i other) none = .ok r) :
+    WF r ∧ r.shape = (i.nrows + other.nrows) :: i.shape.drop 1 ∧
+      (∀ row < i.nrows, ∀ hi ∈ hiCells (i.shape.drop 1), denseAt r row hi = denseAt i row hi) ∧
+      (∀ row' < other.nrows, ∀ hi ∈ hiCells (i.shape.drop 1),
+        denseAt r (row' + i.nrows) hi = denseAt other row' hi) := by
+  have hsame : other.shape.length = i.shape.length := ndim_eq_of_drop ok
+  rw [gen_appendPre_eq i other hnd hsame ok.wo.arity] at hr
+  have hr' : IIdx.append i other = .ok r := by
+    unfold IIdx.append
+    have : ¬ i.ndim > 2 := by omega
+    simp only [this, if_false]
+    exact hr
+  exact append_refines ok hnd r hr'
 
 /-- `items(force=True)` / `to_dict(force=True)`: every item lists exactly the rows where the dense array holds
 the item's value in the item's column -/
